@@ -2,6 +2,7 @@
    Pinned statements only; proofs are in Proofs/ClientP.v and Proofs/SitesP.v. *)
 From ToughV Require Export Model.Base Model.Pct Model.Sig Model.Deleg Model.Client.
 From ToughV Require Import Proofs.ClientP Proofs.SitesP.
+From ToughV Require Export Proofs.DelegLoadP.
 Export ClientP SitesP.
 
 (* the trusted snapshot is the file served under the name the timestamp's entry determines
@@ -41,3 +42,20 @@ Proof.
   destruct Hl as [->|(rs & ->)]; [exact Hv|rewrite tg_set_roles_version; exact Hv].
 Qed.
 Print Assumptions C05_targets_pinned.
+
+(* every delegated role, at every depth ([loaded], see C01_delegated_sites): it is listed in the
+   snapshot, was fetched under the (version-prefixed) name the entry determines, has exactly the listed
+   version, the listed digest when listed, and is within the listed length or the configured limit *)
+Theorem C05_delegated_pinned : forall cfg srv snap cs dkeys all name t0,
+  role_fetch_ok cfg srv snap cs dkeys all name t0 ->
+  exists m file,
+    lookup (json_of name) (sn_meta snap) = Some m
+    /\ lookup (role_filename cs (m_version m) name) srv = Some (Served file)
+    /\ f_body file = CTargets t0 /\ tg_version t0 = m_version m
+    /\ (forall h, m_hash m = Some h -> f_digest file = h)
+    /\ exists n, f_len file = Some n /\ n <= opt_default (m_length m) (c_max_targets_size cfg).
+Proof.
+  intros cfg srv snap cs dkeys all name t0 (m & file & Hm & Hf & Hb & _ & Hv).
+  apply fetch_ok in Hf as (Hl & Hn & Hh). exists m, file. repeat split; auto.
+Qed.
+Print Assumptions C05_delegated_pinned.
